@@ -100,6 +100,8 @@ pub fn step_loco(loco: &mut Locomotive, demand: Result<usize, f64>, dt: f64, eng
 #[derive(Debug, Clone, Default)]
 pub struct Snap {
     pub is_conv: bool,
+    /// hybrid: has engine + generator AND battery (is_conv is false)
+    pub is_hyb: bool,
     // fc
     pub fc_rating: f64,
     pub fc_lag: f64,
@@ -185,64 +187,65 @@ pub fn snap(l: &Locomotive) -> Snap {
     s.l_e_out = l.state.energy_out.value;
     s.l_e_aux = l.state.energy_aux.value;
     s.l_i = l.state.i;
+    s.is_conv = matches!(&l.loco_type, PowertrainType::ConventionalLoco(_));
+    s.is_hyb = matches!(&l.loco_type, PowertrainType::HybridLoco(_));
+    if let Some(fc) = l.fuel_converter() {
+        s.fc_rating = fc.pwr_out_max.value;
+        s.fc_lag = fc.pwr_ramp_lag.value;
+        s.fc_init = fc.pwr_out_max_init.value;
+        s.fc_idle_param = fc.pwr_idle_fuel.value;
+        s.fc_out_max = fc.state.pwr_out_max.value;
+        s.fc_eta = fc.state.eta.value;
+        s.fc_brake = fc.state.pwr_brake.value;
+        s.fc_fuel = fc.state.pwr_fuel.value;
+        s.fc_loss = fc.state.pwr_loss.value;
+        s.fc_idle = fc.state.pwr_idle_fuel.value;
+        s.fc_e_brake = fc.state.energy_brake.value;
+        s.fc_e_fuel = fc.state.energy_fuel.value;
+        s.fc_e_loss = fc.state.energy_loss.value;
+        s.fc_e_idle = fc.state.energy_idle_fuel.value;
+        s.fc_engine_on = fc.state.engine_on;
+    }
+    if let Some(g) = l.generator() {
+        s.gen_rating = g.pwr_out_max.value;
+        s.gen_eta = g.state.eta.value;
+        s.gen_mech_in = g.state.pwr_mech_in.value;
+        s.gen_prop = g.state.pwr_elec_prop_out.value;
+        s.gen_aux = g.state.pwr_elec_aux.value;
+        s.gen_loss = g.state.pwr_loss.value;
+        s.gen_e_mech_in = g.state.energy_mech_in.value;
+        s.gen_e_prop = g.state.energy_elec_prop_out.value;
+        s.gen_e_aux = g.state.energy_elec_aux.value;
+        s.gen_e_loss = g.state.energy_loss.value;
+        s.gen_out_max = g.state.pwr_elec_out_max.value;
+        s.gen_prop_out_max = g.state.pwr_elec_prop_out_max.value;
+    }
+    if let Some(r) = l.reversible_energy_storage() {
+        s.res_rating = r.pwr_out_max.value;
+        s.res_cap = r.energy_capacity.value;
+        s.res_min_soc = r.min_soc.value;
+        s.res_max_soc = r.max_soc.value;
+        s.res_soc = r.state.soc.value;
+        s.res_eta = r.state.eta.value;
+        s.res_disch_max = r.state.pwr_disch_max.value;
+        s.res_charge_max = r.state.pwr_charge_max.value;
+        s.res_prop_out_max = r.state.pwr_prop_out_max.value;
+        s.res_regen_out_max = r.state.pwr_regen_out_max.value;
+        s.res_elec = r.state.pwr_out_electrical.value;
+        s.res_prop = r.state.pwr_out_propulsion.value;
+        s.res_aux = r.state.pwr_aux.value;
+        s.res_loss = r.state.pwr_loss.value;
+        s.res_chem = r.state.pwr_out_chemical.value;
+        s.res_e_elec = r.state.energy_out_electrical.value;
+        s.res_e_prop = r.state.energy_out_propulsion.value;
+        s.res_e_aux = r.state.energy_aux.value;
+        s.res_e_loss = r.state.energy_loss.value;
+        s.res_e_chem = r.state.energy_out_chemical.value;
+    }
     let edrv = match &l.loco_type {
-        PowertrainType::ConventionalLoco(c) => {
-            s.is_conv = true;
-            let fc = &c.fc;
-            s.fc_rating = fc.pwr_out_max.value;
-            s.fc_lag = fc.pwr_ramp_lag.value;
-            s.fc_init = fc.pwr_out_max_init.value;
-            s.fc_idle_param = fc.pwr_idle_fuel.value;
-            s.fc_out_max = fc.state.pwr_out_max.value;
-            s.fc_eta = fc.state.eta.value;
-            s.fc_brake = fc.state.pwr_brake.value;
-            s.fc_fuel = fc.state.pwr_fuel.value;
-            s.fc_loss = fc.state.pwr_loss.value;
-            s.fc_idle = fc.state.pwr_idle_fuel.value;
-            s.fc_e_brake = fc.state.energy_brake.value;
-            s.fc_e_fuel = fc.state.energy_fuel.value;
-            s.fc_e_loss = fc.state.energy_loss.value;
-            s.fc_e_idle = fc.state.energy_idle_fuel.value;
-            s.fc_engine_on = fc.state.engine_on;
-            let g = &c.gen;
-            s.gen_rating = g.pwr_out_max.value;
-            s.gen_eta = g.state.eta.value;
-            s.gen_mech_in = g.state.pwr_mech_in.value;
-            s.gen_prop = g.state.pwr_elec_prop_out.value;
-            s.gen_aux = g.state.pwr_elec_aux.value;
-            s.gen_loss = g.state.pwr_loss.value;
-            s.gen_e_mech_in = g.state.energy_mech_in.value;
-            s.gen_e_prop = g.state.energy_elec_prop_out.value;
-            s.gen_e_aux = g.state.energy_elec_aux.value;
-            s.gen_e_loss = g.state.energy_loss.value;
-            s.gen_out_max = g.state.pwr_elec_out_max.value;
-            s.gen_prop_out_max = g.state.pwr_elec_prop_out_max.value;
-            Some(&c.edrv)
-        }
-        PowertrainType::BatteryElectricLoco(b) => {
-            let r = &b.res;
-            s.res_rating = r.pwr_out_max.value;
-            s.res_cap = r.energy_capacity.value;
-            s.res_min_soc = r.min_soc.value;
-            s.res_max_soc = r.max_soc.value;
-            s.res_soc = r.state.soc.value;
-            s.res_eta = r.state.eta.value;
-            s.res_disch_max = r.state.pwr_disch_max.value;
-            s.res_charge_max = r.state.pwr_charge_max.value;
-            s.res_prop_out_max = r.state.pwr_prop_out_max.value;
-            s.res_regen_out_max = r.state.pwr_regen_out_max.value;
-            s.res_elec = r.state.pwr_out_electrical.value;
-            s.res_prop = r.state.pwr_out_propulsion.value;
-            s.res_aux = r.state.pwr_aux.value;
-            s.res_loss = r.state.pwr_loss.value;
-            s.res_chem = r.state.pwr_out_chemical.value;
-            s.res_e_elec = r.state.energy_out_electrical.value;
-            s.res_e_prop = r.state.energy_out_propulsion.value;
-            s.res_e_aux = r.state.energy_aux.value;
-            s.res_e_loss = r.state.energy_loss.value;
-            s.res_e_chem = r.state.energy_out_chemical.value;
-            Some(&b.edrv)
-        }
+        PowertrainType::ConventionalLoco(c) => Some(&c.edrv),
+        PowertrainType::BatteryElectricLoco(b) => Some(&b.edrv),
+        PowertrainType::HybridLoco(h) => Some(&h.edrv),
         _ => None,
     };
     if let Some(e) = edrv {
@@ -352,7 +355,13 @@ pub fn oracle_c08(p: &Snap, s: &Snap, info: &StepInfo, checks: &mut u64) -> Fail
     let mut f = vec![];
     let sc = pscale(s);
     let band = 1e-9 * sc;
-    let kind = if s.is_conv { "conv" } else { "bel" };
+    let kind = if s.is_hyb {
+        "hyb"
+    } else if s.is_conv {
+        "conv"
+    } else {
+        "bel"
+    };
     let mut t = |f: &mut Fails, ok: bool, key: &str, what: String| {
         *checks += 1;
         if !ok {
@@ -373,7 +382,7 @@ pub fn oracle_c08(p: &Snap, s: &Snap, info: &StepInfo, checks: &mut u64) -> Fail
     t(&mut f, info.demand < 0.0 || s.ed_dyn.abs() <= band, "dyn-brake-without-braking-demand@edrv", format!("pwr_mech_dyn_brake={} at demand {}", s.ed_dyn, info.demand));
     t(&mut f, s.ed_e_loss >= p.ed_e_loss - band, "cumulative-loss-decreased@edrv", format!("{} -> {}", p.ed_e_loss, s.ed_e_loss));
     t(&mut f, s.ed_e_dyn >= p.ed_e_dyn - band, "cumulative-dyn-brake-decreased@edrv", format!("{} -> {}", p.ed_e_dyn, s.ed_e_dyn));
-    if s.is_conv {
+    if s.is_conv || s.is_hyb {
         t(&mut f, s.fc_loss >= -band, "negative-loss@fc", format!("pwr_loss={}", s.fc_loss));
         t(&mut f, s.gen_loss >= -band, "negative-loss@gen", format!("pwr_loss={}", s.gen_loss));
         t(&mut f, eta_ok(s.fc_eta), "eta-outside-(0,1]@fc", format!("eta={}", s.fc_eta));
@@ -389,7 +398,8 @@ pub fn oracle_c08(p: &Snap, s: &Snap, info: &StepInfo, checks: &mut u64) -> Fail
             t(&mut f, s.l_aux == 0.0 && s.gen_aux == 0.0, "engine-off-aux-power@Locomotive::set_pwr_aux", format!("loco pwr_aux={} gen pwr_elec_aux={}", s.l_aux, s.gen_aux));
             t(&mut f, !s.fc_engine_on, "engine-off-not-recorded@fc", format!("state.engine_on={}", s.fc_engine_on));
         }
-    } else {
+    }
+    if !s.is_conv {
         t(&mut f, s.res_loss >= -band, "negative-loss@res", format!("pwr_loss={}", s.res_loss));
         t(&mut f, eta_ok(s.res_eta), "eta-outside-(0,1]@res", format!("eta={}", s.res_eta));
         if s.res_elec >= 0.0 {
